@@ -992,8 +992,24 @@ func Select(chs ...interface{}) int {
 			return i
 		}
 	}
-	i, _, _ := reflect.Select(cases)
+	i, _, ok := reflect.Select(cases)
 	AfterWake()
+	if !ok {
+		// Woken by a close: nothing was consumed.  When several cases are ready
+		// now (the same channel listed twice, or channels closed together by one
+		// cancellation) the runtime's pick among them is random; choose again in
+		// the tape's order so that the run replays.
+		for j := 0; j < n; j++ {
+			k := (off + j) % n
+			if !cases[k].Chan.IsValid() || cases[k].Chan.IsNil() {
+				continue
+			}
+			probe[0] = cases[k]
+			if sel, _, _ := reflect.Select(probe); sel == 0 {
+				return k
+			}
+		}
+	}
 	return i
 }
 
